@@ -7,7 +7,7 @@ for patch in $(ls "$STASH"/*/seed_*.patch.diff | sort); do
   i=$((i+1)); if [ $((i % N)) -ne "$PART" ]; then continue; fi
   d=$(dirname "$patch"); pid=$(basename "$d"); s=$(basename "$patch" .patch.diff)
   name="${pid}_${s}"
-  feat=""; if [ "$pid" = "C16" ] || grep -q "mock_salts" "$d/$s.meta.json" 2>/dev/null; then feat="--features mock_salts"; fi
+  feat=""; if [ "$pid" = "C16" ] || grep -qE "features mock_salts[^\"]*(--test )?seed_demo|seed_demo[^\"]*features mock_salts" "$d/$s.meta.json" 2>/dev/null; then feat="--features mock_salts"; fi
   if [ -z "$SKIP_CONFIRM" ]; then CARGO_TARGET_DIR=/tmp/confirm_target_$PART /verif/tools/confirm_seed.sh "$patch" "$d/$s.demo.rs" "$feat" > /verif/out/seedconfirm/$name.txt 2>&1; fi
   /verif/tools/seedmatrix.sh "$name" "$patch" > /dev/null 2>&1
 done
